@@ -73,12 +73,26 @@ for _pid, _extra in (("C02", "every rewritten output is really concatenated with
         "trusted_base": MP4_TRUSTED,
         "assumptions": COMMON_ASSUME + ["the whole-run statement of this property is evaluated on the implementation's output for every generated case (Spec in MediaSan/Spec/Mp4Rules.lean); the theorems cover the components named in the Props file"],
     }
+PROPS["C05"]["extract"] = ["mp4_consts"]
+PROPS["C16"] = {
+    "extract": ["mp4_consts"],
+    "rule": "cases = headers: 4 name classes x 13 size-field values x 16 truncation points + 64-bit size values + random; constructors: the full grid u32::MAX-24..u32::MAX+24 and u64::MAX-40..u64::MAX for a FourCC, a uuid and the FourCC spelling `uuid`, both constructors; trees: random rich moov boxes (1-3 traks, unknown/uuid siblings, 32/64-bit/until-end headers at every level, one in six corrupted, one in five with trailing bytes) x random sequences of typed accessor calls {parse, traks, mdia_mut, minf_mut, stbl_mut, co_mut on all/first/last trak} and the sanitizer's own sequence. non-trivial = everything except headers too short to decode (tag trunc)",
+    "trivial_tags": ["hdr", "trunc"],
+    "trusted_base": MP4_TRUSTED + ["extract.py `mp4_consts`: mp4_int! rows and constants"],
+    "assumptions": COMMON_ASSUME + ["BoxType::FourCC(*b\"uuid\") cannot be obtained by parsing and is excluded from the decode-back claim (compared with the model only)",
+                                    "after a *failed* accessor call the lazily parsed buffer may be partly consumed; the round-trip claim is about successfully obtained values (length agreement is still required)"],
+}
 PROPS["C05"]["exhaustive"] = {"quick": True, "thorough": True}
 PROPS["C05"]["explanation"] = "exhaustive = all top-level layouts up to the stated length over the 9-letter box alphabet"
 
 NOT_APPLICABLE = {}
 
 MANIFEST_TEXT = {
+    "C16": {
+        "text": "Lean theorems: header decode∘encode = id on well-formed headers, encode∘decode reproduces the consumed bytes, put_buf writes exactly encoded_len bytes; the two constructors declare exactly header + payload, choose the 64-bit form iff the 32-bit one cannot hold it, never yield until-EOF, decode back, and fail iff the size leaves u64; Boxes::parse followed by serialization is the identity with encoded_len = length for every accepted byte string; the sanitizer's lazy typed-accessor path (moov → traks → mdia → minf → stbl → stco|co64) leaves serialization and length unchanged (a congruence-parametric preservation proof over the five nesting levels); every extracted mp4_int! row round-trips (big-endian). Correspondence through the public mp4san::parse API over header grids, constructor boundary grids and random trees x accessor-call sequences.",
+        "note": "Trusted: Lean kernel and standard axioms; model of BytesMut/derive expansion validated differentially; harness + driver. Preconditions stated in evidence.assumptions (FourCC spelling `uuid`; failed accessors).",
+        "technique": "Lean 4 proof (case analysis on header shapes, induction over box lists, relation-parametric preservation across nesting levels) + differential check via the public parse API",
+    },
     "C02": {
         "text": "Lean theorems: the re-derived ftyp/moov headers always carry an explicit size declaring exactly header + payload (never until-EOF) and are well-formed (decode back, C16); the padding header is the 32-bit free box declaring exactly the pad; the assembled metadata is body ++ pad header ++ zeros of length metadata_len + pad. The fixpoint half is checked on the real code: the harness concatenates the returned metadata with the media span (sparse-aware), re-sanitizes, and the driver requires 'nothing to do' with span {|md|, len}; the model must agree on both runs.",
         "note": "Partial: structure is proved; the re-sanitize fixpoint is established per generated case on the implementation (and compared with the model), not by a theorem. Trusted: Lean kernel and the three standard axioms; model validated differentially; walker; harness + driver.",
